@@ -63,6 +63,11 @@ func c04Stream(env *fw.Env) {
 	for _, l := range []uint32{0, 1, 9, 1<<24 - 1 + 1, 1 << 28, 1<<31 - 1, 1 << 31, 1<<32 - 1} {
 		jobs = append(jobs, job{"bad-length", int(l)})
 	}
+	// a too-short length field followed by that many bytes and then a perfectly valid frame: a reader that merely
+	// skips the short "frame" resynchronises on the valid one and keeps the link
+	for _, l := range []uint32{0, 1, 2, 4, 9} {
+		jobs = append(jobs, job{"bad-length+valid-frame", int(l)})
+	}
 	// the two largest well-formed frames on a LIVE connection (the decode half holds the same inputs against the pure
 	// decoders): a length field of cap-1 and of exactly cap = 2^24-1 is a valid frame and must be delivered
 	for _, l := range []int{1<<24 - 2, 1<<24 - 1} {
@@ -358,16 +363,21 @@ func c04StreamOne(env *fw.Env, i int64, kind string, arg int) {
 		}
 		checkDelivered([]peer.Frame{f})
 		env.Event("slow_steady_frames_delivered", 1)
-	case "bad-length":
+	case "bad-length", "bad-length+valid-frame":
 		l := uint32(arg)
 		cs.Note = fmt.Sprintf("length field %d", l)
 		env.Begin(i, cs)
 		env.Sample(cs)
-		env.Eval(fw.HashStr("badlen", fmt.Sprint(l, cs.Active)), true)
+		env.Eval(fw.HashStr("badlen", fmt.Sprint(kind, l, cs.Active)), true)
 		var m0, m1 runtime.MemStats
 		runtime.GC()
 		runtime.ReadMemStats(&m0)
 		hdr := []byte{byte(l >> 24), byte(l >> 16), byte(l >> 8), byte(l), 0x12, 0x34, 0x05, 0x05, 0, 0, 0, 0, 0, 9}
+		if kind == "bad-length+valid-frame" {
+			hdr = append(hdr[:4:4], make([]byte, l)...)
+			hdr = append(hdr, peer.Data(1, 1, false, 0x1234, 0x0BAD1E00|l, []byte{0x41, 0x01, 'z'}).Bytes()...)
+			env.Event("bad_lengths_followed_by_a_valid_frame", 1)
+		}
 		_ = pc.SendRaw(hdr)
 		if !pc.WaitClosed(10 * time.Second) {
 			fail("bad-length-not-dropped", fmt.Sprintf("a length field of %d (outside [10, 2^24-1]) did not drop the link within 10 s", l))
